@@ -200,7 +200,7 @@ func (d *legacyDrv) open() (err error) {
 	return err
 }
 
-func (d *legacyDrv) put(k, val *felt.Felt) error { _, err := d.tr.Put(k, val); return err }
+func (d *legacyDrv) put(k, val *felt.Felt) error         { _, err := d.tr.Put(k, val); return err }
 func (d *legacyDrv) get(k *felt.Felt) (felt.Felt, error) { return d.tr.Get(k) }
 func (d *legacyDrv) commit() (felt.Felt, error)          { return d.tr.Hash() }
 func (d *legacyDrv) reopen() error {
